@@ -63,13 +63,19 @@ SIG = "prune-marks-carry-plan-time"
 
 def run(ctx):
     rng, cov = ctx.rng, ctx.coverage
+    meta, err = vlib.regen_extracted("C10")
     r = vlib.proof_stage(ctx)
+    if err:
+        r["ok"] = False; r["failures"].append("fact extraction failed: " + err)
+    cov["trusted_base"] += ["props/C10/extract.py (reads from prune.rs: prune_time = prune_plan.time.timestamp(), PrunePlan::new's Zoned::now() and its position after the scan, the time/section of every executor arm, the unreferenced-pack marking, the keep-delete expiry guard and its operator)"]
+    cov["source_facts"] = meta
     ctx.level = "proof"
     ctx.assumptions += [
         "PARTIAL: the theorems are about the protocol model (Model.v): steps = backend operations of backup and non-instant prune; real thread timing inside one command is not modelled (operations of one command are totally ordered as recorded)",
         "non-atomic index loading by a backup is over-approximated: the dedup view is the union of the index files the backup managed to read, a file removed meanwhile is simply not seen",
         "at most one prune is active at a time (prune||prune is outside the property); therefore the index files a prune listed stay present and immutable until that prune removes them, and loading them is modelled as one step",
         "the per-pack decision of a prune is supplied by the event and constrained by plan_ok (what decide_packs/check_existing_packs guarantee: admissible to-dos per mark state, Delete only if mark_time + keep_delete <= plan time, every used blob owned by a kept/recovered/repacked existing pack); the exact accounting of duplicates is property C02",
+        "next_prune_recovers: the further prune runs alone to completion (PStart .. PDone, no abort, no concurrent event); no timing hypothesis",
         "hypothesis of no_referenced_pack_deleted (`timely`): (a) while a backup runs, no pack it saw unmarked or wrote itself carries a mark whose keep-delete time has expired; (b) a prune deletes only packs whose keep-delete time had expired when that prune started. The literal premise of the property (keep_delete > backup duration) is weaker: slow_prune_refuted",
         "blob identity is untyped in the model (typed/untyped collisions are C02/C13); forget is a plain snapshot removal",
         "real clock: keep_delete of 0.3-2 s with sleeps; ticks of 10 ms in the replay"]
